@@ -118,6 +118,8 @@ parse_line = Fn(P, 'parse_line', ret='r',
         # which is not one of C01's argument forms); the tokenizer's state is specified only up to that point.
         ('C01.inv.pl.spaces_skipped_only_between_words',
          '!adj && new_round ==> token@.len() == 0 && sep_second@.len() == 0 && (sep@.len() == 0 || is_bs(sep@)) && sep_made@.len() == 0'),
+        # ... also after concatenated quoting: whatever word was pushed, the tag an escaped character gave it is gone when the next word starts
+        ('C01+C12+C13.inv.pl.an_escape_tag_does_not_outlive_its_word', '(new_round ==> sep_made@.len() == 0) && (is_bs(sep@) ==> sep_made@.len() == 0)'),
         ('C01.inv.pl.backslash_word_has_no_inner_quote', '!adj && is_bs(sep@) ==> sep_second@.len() == 0'),
         # a pending literal tag belongs to the unquoted word being collected: a push that ignores it leaves it dangling
         ('C01.inv.pl.literal_tag_belongs_to_the_word_in_progress', '!adj && sep_made@.len() > 0 ==> sep@.len() == 0 && token@.len() > 0'),
